@@ -8,7 +8,8 @@ From AV Require Import Spec.C11.      (* multisets of rows: count_row, mseq, mse
 Record input10 := mkIn10 {
   j_tbl : tbl; j_rows : list row; j_ops : list batch_op;
   j_cast : list (ty * val * val);           (* oracle: SQLite's CAST(v AS ty) stored in a column of type ty *)
-  j_dflt : list (name * val) }.             (* oracle: what SQLite stores in an added column (its DEFAULT or NULL) *)
+  j_dflt : list (name * val);               (* oracle: what SQLite stores in an added column (its DEFAULT or NULL) *)
+  j_always : bool }.                        (* recreate='always' (true) or 'auto' (false) *)
 Inductive output10 :=
 | OutOk (d:ndesc) (rows:list row) (tmp_left:bool)      (* reflected table, SELECT * (a multiset), any _alembic_tmp_* table left *)
 | OutErr (e:berr).
@@ -57,16 +58,24 @@ Definition desc_equiv_w (added:list name) (a b:ndesc) : Prop :=
 Definition berr_eqb (a b:berr) : bool :=
   match a, b with
   | EKeyError, EKeyError | EValueError, EValueError | ECircular, ECircular | EDuplicateColumn, EDuplicateColumn
-  | EOperationalB, EOperationalB | EFuelB, EFuelB | EOtherB, EOtherB => true
+  | EOperationalB, EOperationalB | ECommandB, ECommandB | EFuelB, EFuelB | EOtherB, EOtherB => true
   | _, _ => false
   end.
 
 (* ------------------------------------------------------------------ the model's output *)
 Definition model10 (i:input10) : output10 :=
-  match batch sa_tsort (j_tbl i) (j_ops i) with
-  | BErr e => OutErr e
-  | BOk (nd, cm) => OutOk nd (copy_rows (cast_of i) (dflt_of i) (j_tbl i) nd cm (j_rows i)) false
-  end.
+  if command_error (j_always i) [] (j_ops i) then OutErr ECommandB
+  else if j_always i || requires_recreate (j_ops i) then
+    match batch sa_tsort (j_tbl i) (j_ops i) with
+    | BErr e => OutErr e
+    | BOk (nd, cm) => OutOk nd (copy_rows (cast_of i) (dflt_of i) (j_tbl i) nd cm (j_rows i)) false
+    end
+  else
+    match direct_ops (j_ops i) (j_tbl i) with
+    | BErr e => OutErr e
+    | BOk T' => let nd := desc_of_tbl T' in
+                OutOk nd (copy_rows (cast_of i) (dflt_of i) (j_tbl i) nd (identity_map (j_tbl i)) (j_rows i)) false
+    end.
 Definition corr_C10 (i:input10) (o:output10) : bool :=
   match model10 i, o with
   | OutErr a, OutErr b => berr_eqb a b
